@@ -127,6 +127,9 @@ def jobs_for(tier):
         fixed=dict(mom=0, b1=0), assume_generic=True)
     add(params=[(2,), (2,)], mpd=2, schedule=True, presence="symbolic", graft="sgd", nesterov=False, bias_corr=False, decoupled=False, pf=1, sps=2, T=3, rebase=True,
         fixed=dict(mom=0, b1=0), assume_generic=True)
+    # momentum scheduled to zero and back (constructed non-zero, so the buffers exist) while the set of parameters with gradients changes
+    add(params=[(2,), (2,)], mpd=2, schedule="with-momentum", presence="symbolic", graft=None, nesterov=False, bias_corr=True, decoupled=True, pf=1, sps=1, T=3, rebase=True,
+        fixed=dict(wd=0, b1=0), assume_generic=True)
     # dtype pairs (tags): casts happen, no mismatch error
     for pd, fd in (("float64", "float32"), ("bfloat16", "float32"), ("float32", "float64")):
         add(pdtype=pd, fdtype=fd, graft="adam", pf=1, sps=1, T=2, fixed=dict(wd=0, mom=0))
